@@ -140,6 +140,7 @@ def check_case(ctx, doc, mq_ast, mq_text, rel_asts, rel_texts, style, cls):
             ctx.violation("projection-differs:%s" % style, case, {"style": style, "match": list(base), "rel": rel_texts, "got": canon(got.value)[:400], "expected": canon([want])[:400]})
             return
         ctx.count("projections_compared")
+        ctx.remember("projection", lambda m_parts=base, rt=list(rel_texts), st=style, d=doc, mq=mq_text: repr([canon(x) for mm in jsonpath.finditer(mq, d) if tuple(mm.parts) == m_parts for x in jsonpath.Query([mm], jsonpath.DEFAULT_ENV).select(*rt, projection=getattr(jsonpath.Projection, st))]), limit=150)
         if len(ctx.samples) < 4 or ctx.rng.random() < 0.002:
             ctx.sample({"match_query": mq_text, "relative": rel_texts, "style": style, "projection": canon(want)[:160]})
     ctx.case(h(canon(doc), mq_text, rel_texts, style), nontrivial)
